@@ -500,6 +500,15 @@ package types
 //@   ensures [nilRejected] dve == nil ==> err != nil
 //@   ensures [bothVotesPresentAndStrictlyOrdered] err == nil ==> dve.VoteA != nil && dve.VoteB != nil && strings.strCmp(keyOf(dve.VoteA.BlockID), keyOf(dve.VoteB.BlockID)) < 0
 
+// Decoding a piece of evidence yields evidence or an error, never a nil value without one (the decoder
+// is handed the oneof wrapper gogo/protobuf allocated; an unknown or absent variant is an error).
+//@ func EvidenceFromProto(evidence *kproto.Evidence) (r Evidence, err error)
+//@   for C18 C19
+//@   safe
+//@   requires evidence != nil && dyntype(evidence.Sum) == typeid(*kproto.Evidence_DuplicateVoteEvidence) ==> unbox(evidence.Sum, *kproto.Evidence_DuplicateVoteEvidence) != nil
+//@   modifies nothing
+//@   ensures [evidenceOrError] err == nil ==> r != nil && dyntype(r) == typeid(*DuplicateVoteEvidence) && unbox(r, *DuplicateVoteEvidence) != nil
+
 // Duplicate-vote evidence on the wire: each field goes to the field of the same name, votes in order.
 //@ func (dve *DuplicateVoteEvidence) ToProto() (r *kproto.DuplicateVoteEvidence)
 //@   for C13 C19
@@ -509,7 +518,7 @@ package types
 //@   atcall Vote.ToProto requires [bothVotes] vote == dve.VoteA || vote == dve.VoteB
 //@ func DuplicateVoteEvidenceFromProto(pb *kproto.DuplicateVoteEvidence) (r *DuplicateVoteEvidence, err error)
 //@   for C13 C19
-//@   modifies *
+//@   modifies nothing
 //@   ensures [nilRejected] pb == nil ==> err != nil
 //@   ensures [fieldsCopied] err == nil ==> r != nil && r.TotalVotingPower == old(pb.TotalVotingPower) && r.ValidatorPower == old(pb.ValidatorPower) && r.Timestamp == old(pb.Timestamp)
 //@   atstore DuplicateVoteEvidence.VoteA requires [voteAFromVoteA] new == vA
@@ -953,6 +962,9 @@ package types
 //@ spec func evHashOf(e Evidence) common.Hash
 //@ trusted func (e Evidence) Hash() (r common.Hash)
 //@   ensures r == evHashOf(e)
+// (interface method: pure; refined at call sites by DuplicateVoteEvidence.ValidateBasic)
+//@ trusted func (e Evidence) ValidateBasic() (err error)
+//@   modifies nothing
 
 // ---------------------------------------------------------------- C13/C18: votes on the wire
 // A vote accepted from a peer has a known type, a signature, and a block id that is either entirely
